@@ -2,6 +2,7 @@ import PhysisModel.Proofs.Shpk
 import PhysisModel.Proofs.Mtrl
 import PhysisModel.Proofs.Half
 import PhysisModel.Properties.C12
+import PhysisModel.Proofs.BinrwTieMs
 /-!
 # C14 — materials and shader packages decode to what their files store
 
@@ -243,5 +244,72 @@ example : ((0x0001 : UInt16) >>> 10) &&& 0x1F ≠ 0x1F := by decide
 theorem c14_crc (s : Bytes) :
     Shpk.crc Spec.Crc32.zlibCrc32 s = Spec.Crc32.crcBitwise 0 0 s :=
   C12.c12_shader_crc s
+
+end Physis.C14
+
+/-! ### T4: binrw declarations regenerated from the source
+
+`Generated/BinrwMs.lean` is re-translated from the `#[binrw]` declarations of `src/mtrl.rs` and
+`src/shpk.rs` on every run (`lib/binrw2lean.py`); the `MsCommon.P` record parsers of `Model/Mtrl.lean` /
+`Model/Shpk.lean`, applied to their input, are `Layout.read` of the regenerated descriptors followed by
+a pure projection, with a read error as `.error .fail` (`BinrwTie.Ms.toR`; `Proofs/BinrwTieMs.lean`),
+for all inputs.  `endianMtrl` / `endianShpk` are the regenerated endianness of the enclosing
+`MaterialData` / `ShaderPackage` (`c14_binrw_endian`). -/
+namespace Physis.C14
+open Physis.Binrw Physis.Generated
+
+theorem c14_binrw_endian : BinrwTie.Ms.endianMtrl = .little ∧ BinrwTie.Ms.endianShpk = .little :=
+  BinrwTie.Ms.endian_generated
+
+/-- `ShaderPackage` starts with the magic `ShPk` and the u32 version (the next field has `try_map`) -/
+theorem c14_binrw_ShaderPackage_prefix :
+    BinrwMs.shaderPackage.normalizeAt .big =
+      (Layout.mk (some .little) (.bytes [0x53, 0x68, 0x50, 0x6B]) [.mk "" none .none 0 (.prim .u32) 0 0] false).normalizeAt .big :=
+  BinrwTie.Ms.shaderPackage_generated
+
+theorem c14_binrw_MaterialFileHeader (l : Bytes) :
+    Physis.Mtrl.materialFileHeader l =
+      BinrwTie.Ms.toR (via BinrwTie.Ms.materialFileHeaderOf (Layout.read BinrwTie.Ms.endianMtrl BinrwMs.materialFileHeader l)) :=
+  BinrwTie.Ms.materialFileHeader_eq_generated l
+
+theorem c14_binrw_MaterialHeader (l : Bytes) :
+    Physis.Mtrl.materialHeader l =
+      BinrwTie.Ms.toR (via BinrwTie.Ms.materialHeaderOf (Layout.read BinrwTie.Ms.endianMtrl BinrwMs.materialHeader l)) :=
+  BinrwTie.Ms.materialHeader_eq_generated l
+
+theorem c14_binrw_ColorSet (l : Bytes) :
+    Physis.Mtrl.colorSet l =
+      BinrwTie.Ms.toR (via BinrwTie.Ms.colorSetOf (Layout.read BinrwTie.Ms.endianMtrl BinrwMs.colorSet l)) :=
+  BinrwTie.Ms.colorSet_eq_generated l
+
+theorem c14_binrw_ShaderKey (l : Bytes) :
+    Physis.Mtrl.shaderKey l =
+      BinrwTie.Ms.toR (via BinrwTie.Ms.shaderKeyOf (Layout.read BinrwTie.Ms.endianMtrl BinrwMs.shaderKey l)) :=
+  BinrwTie.Ms.shaderKey_eq_generated l
+
+theorem c14_binrw_ConstantStruct (l : Bytes) :
+    Physis.Mtrl.constantStruct l =
+      BinrwTie.Ms.toR (via BinrwTie.Ms.constantStructOf (Layout.read BinrwTie.Ms.endianMtrl BinrwMs.constantStruct l)) :=
+  BinrwTie.Ms.constantStruct_eq_generated l
+
+theorem c14_binrw_MaterialParameter (l : Bytes) :
+    Physis.Shpk.materialParameter l =
+      BinrwTie.Ms.toR (via BinrwTie.Ms.materialParameterOf (Layout.read BinrwTie.Ms.endianShpk BinrwMs.materialParameter l)) :=
+  BinrwTie.Ms.materialParameter_eq_generated l
+
+theorem c14_binrw_Key (l : Bytes) :
+    Physis.Shpk.key l =
+      BinrwTie.Ms.toR (via BinrwTie.Ms.keyOf (Layout.read BinrwTie.Ms.endianShpk BinrwMs.key l)) :=
+  BinrwTie.Ms.key_eq_generated l
+
+theorem c14_binrw_Pass (l : Bytes) :
+    Physis.Shpk.pass l =
+      BinrwTie.Ms.toR (via BinrwTie.Ms.passOf (Layout.read BinrwTie.Ms.endianShpk BinrwMs.pass l)) :=
+  BinrwTie.Ms.pass_eq_generated l
+
+theorem c14_binrw_NodeAlias (l : Bytes) :
+    Physis.Shpk.nodeAlias l =
+      BinrwTie.Ms.toR (via BinrwTie.Ms.nodeAliasOf (Layout.read BinrwTie.Ms.endianShpk BinrwMs.nodeAlias l)) :=
+  BinrwTie.Ms.nodeAlias_eq_generated l
 
 end Physis.C14
